@@ -9,7 +9,7 @@ pairwise distinct candidates `name__1 … name__(len+2)`); assigning names to ne
 values pairwise distinct.
 -/
 namespace PrefVerif.C16
-open PrefVerif PrefVerif.Py PrefVerif.InstanceIO PrefVerif.IOL
+open PrefVerif PrefVerif.Py PrefVerif.InstanceIO PrefVerif.IOL PrefVerif.IOLw
 
 /-- the candidate `name__t` -/
 def cand (name : Str) (t : Nat) : Str := name ++ s "__" ++ natToStr t
